@@ -938,6 +938,7 @@ func master(id string, tier checks.Tier) int {
 		"undecidable_reasons":        total.SkipReasons,
 		"simulated_time_seam_events": total.Events,
 		"executions_per_hour":        int(runsPerHour),
+		"seeded_runs_per_hour":       int(float64(total.Runs) / (wall + 1e-9) * 3600),
 		"seeds":                      fmt.Sprintf("VERIF_SEED=%d; run i uses mix(VERIF_SEED, %q, i), i in [0,%d)", seed, id, N),
 		"fault_kinds_fired":          total.Fired,
 		"probes":                     total.Probes,
